@@ -1,13 +1,15 @@
 #!/bin/bash
-# usage: seedcheck.sh <property id> <diff file> [tier] — applies a seeded change to /repo,
-# runs the property's check, and always restores /repo.
+# usage: seedcheck.sh <property id> <diff file> [tier] — applies a seeded change to a
+# scratch worktree of /repo (never to /repo itself, so that other checks can run at the
+# same time), runs the property's check against it with evidence redirected, and removes
+# the worktree.
 set -u
 ID=$1; DIFF=$2; TIER=${3:-quick}
-cd /repo || exit 2
-if [ -n "$(git status --porcelain)" ]; then echo "REPO NOT CLEAN"; exit 2; fi
-git apply "$DIFF" || { echo "APPLY FAILED"; exit 2; }
-# the evidence file must describe the unchanged tree: keep it aside
-cp /verif/evidence/$ID.json /tmp/evidence.$ID.keep 2>/dev/null
-trap 'git -C /repo checkout -- . ; git -C /repo clean -fdq; [ -f /tmp/evidence.'$ID'.keep ] && mv /tmp/evidence.'$ID'.keep /verif/evidence/'$ID'.json' EXIT
-timeout ${SEED_TIMEOUT:-1500} /verif/bin/symgo check "$ID" --tier "$TIER" 2>&1 | grep -v "^\s\s\s\s" | grep "VIOLATION\|KNOWN\|$ID:\|reason" | cut -c1-300 | head -12
+WT=$(mktemp -d /tmp/repo-mut.XXXXXX); rmdir $WT
+git -C /repo worktree add -q --detach $WT HEAD || exit 2
+trap 'git -C /repo worktree remove --force '$WT' 2>/dev/null; rm -rf '$WT' /tmp/evmut.$$' EXIT
+# the worktree has /repo's committed state; carry over uncommitted changes (there should be none)
+git -C $WT apply "$DIFF" || { echo "APPLY FAILED"; exit 2; }
+mkdir -p /tmp/evmut.$$
+VERIF_REPO=$WT VERIF_EVIDENCE_DIR=/tmp/evmut.$$ timeout ${SEED_TIMEOUT:-1500} /verif/bin/symgo check "$ID" --tier "$TIER" 2>&1 | grep -v "^\s\s\s\s" | grep "VIOLATION\|KNOWN\|$ID:\|reason\|INCOMPLETE" | cut -c1-300 | head -12
 echo "exit=${PIPESTATUS[0]}"
